@@ -8,6 +8,23 @@ CHECKS = {
         design="§6 C17",
     ),
 }
+CHECKS.update({
+    "C11": dict(
+        text="Lean 4 theorems: for every recipe state, regex semantics (re.search is a parameter) and query, the nested loops of get_quantization_configs equal 'the last applicable rule in scope/insertion order wins, default no-quantize' (resolve_eq_spec); whatever is resolved passes the support check (resolve_sound); a failed add is a ValueError and leaves the state unchanged; '*' resets a scope. The state reached by a history is tied to the code by step-by-step correspondence over all histories of length <= 2 (reduced alphabet) and sampled longer ones, plus an independent declarative oracle.",
+        note="the declarative characterisation of the state after an arbitrary history (survivor rules) is not yet a theorem; it is covered by the exhaustive/sampled correspondence and the independent oracle",
+        design="§6 C11",
+    ),
+    "C12": dict(
+        text="Lean 4 theorems: every constructible OpQuantizationConfig survives to_dict -> from_dict (cfg_roundtrip, all field values), every exported rule reloads as the same add call (rule_reload), every shipped recipe loads and the default recipes are fixpoints of load;get (kernel evaluation over the recipe table regenerated from the live tree). Reload equality of whole recipes, equal resolution and byte-identical quantize() output are checked on the real code for generated histories.",
+        note="full-state reload theorem (induction over scopes under the reachable-state invariant) not proved yet; byte-identical output also relies on the flatbuffer writer being deterministic (external)",
+        design="§6 C12",
+    ),
+    "C13": dict(
+        text="Lean 4 theorems over tables regenerated from the live registries/policy: the unrolling code is verified by kernel evaluation (unroll_matches); accepted without skip_checks => a legal runtime mode for that operator, for every config (accepted_minmax_legal, accepted_float_casting); unsupported => ValueError at update time, accepted => never refused; '*' rules that fail the check are never resolved (C11.resolve_sound). The model's acceptance function is compared with the code on the full 24-op x 960-config x 2-algorithm lattice exhaustively.",
+        note="'the interpreter prepares every accepted pair and tracks the float model' is runtime behaviour: not proved; executed on generated single-op models by the C01/C06/C07 checks",
+        design="§6 C13",
+    ),
+})
 PENDING = {}
 ALL = [f"C{i:02d}" for i in range(1, 20)]
 
